@@ -1193,20 +1193,23 @@ class _RpcThread(QMI_Thread):
         """Check if the object has the method requested and is RPC callable; if so, return it."""
         assert self._rpc_object is not None
 
-        # Check that the method exists.
-        if not hasattr(self._rpc_object, request.method_name):
+        # Check that the method exists. Look the name up statically: `hasattr()`/`getattr()` would evaluate
+        # descriptors, i.e. run a property getter for a name that is not an RPC method.
+        try:
+            static_attr = inspect.getattr_static(self._rpc_object, request.method_name)
+        except AttributeError:
             raise QMI_UnknownRpcException("Object {} of type {} does not have method {}"
                                           .format(request.destination_address.object_id,
                                                   type(self._rpc_object).__name__,
-                                                  request.method_name))
+                                                  request.method_name)) from None
 
-        # Check that the method was marked as RPC-callable.
-        method = getattr(self._rpc_object, request.method_name)
-        is_rpc_callable = getattr(method, "_rpc_method", False)
-        if not is_rpc_callable:
+        # Check that the method was marked as RPC-callable (same test as in `make_interface_descriptor`).
+        if isinstance(static_attr, staticmethod):
+            static_attr = static_attr.__func__
+        if not is_rpc_method(static_attr):
             raise QMI_UnknownRpcException("Method {!r} is not RPC-callable!".format(request.method_name))
 
-        return method
+        return getattr(self._rpc_object, request.method_name)
 
     def _reject_remaining_requests(self) -> None:
         """Reject any requests that are still in our queue when the RPC object shuts down."""
